@@ -248,7 +248,7 @@ func init() {
 	// ---------------- sync ----------------
 	nop := func(in *Exec, _ *frame, a []value) value { return nil }
 	for _, n := range []string{
-		"runtime.KeepAlive", "runtime.SetFinalizer", "runtime.GC", "runtime.Gosched", "internal/race.Acquire", "internal/race.Release",
+		"runtime.KeepAlive", "runtime.SetFinalizer", "runtime.GC", "internal/race.Acquire", "internal/race.Release",
 		"internal/race.ReleaseMerge", "internal/race.Disable", "internal/race.Enable", "internal/race.Read", "internal/race.Write",
 		"internal/race.ReadRange", "internal/race.WriteRange", "(*sync.Cond).Broadcast", "(*sync.Cond).Signal",
 		"(*sync.noCopy).Lock", "(*sync.noCopy).Unlock", "runtime.LockOSThread", "runtime.UnlockOSThread", "log.Printf", "log.Println", "log.Print",
@@ -256,6 +256,11 @@ func init() {
 		reg(n, nop)
 	}
 	regSync()
+	// runtime.Gosched: the running goroutine stays runnable and lets the others run until they block
+	reg("runtime.Gosched", func(in *Exec, _ *frame, a []value) value {
+		in.yield()
+		return nil
+	})
 	reg("(*sync.Pool).Get", func(in *Exec, fr *frame, a []value) value {
 		p := (*a[0].(*value)).(structure)
 		// last field: New func() any
